@@ -512,6 +512,46 @@ fn gen_stream(gen: usize, rng: &mut Rng, enc: &mut Encoder, stream_hint: u32) ->
             }
             out
         }
+        9 => {
+            // workflow traffic a server sends a client: answers to transactions 1-4 naming streams
+            // 5 and 6, start statuses and media on those streams, in any order (what one input call
+            // may carry is the transport's business)
+            let mut out = Vec::new();
+            for _ in 0..rng.usize(3, 9) {
+                let sid = *rng.pick(&[5u32, 6, 5, stream_hint]);
+                let (m, msid): (RMsg, u32) = match rng.below(7) {
+                    0 | 1 => (sessprep::command("_result", rng.usize(1, 4) as f64, V::Null, vec![amf::num(*rng.pick(&[5.0, 6.0]))]), 0),
+                    2 => (sessprep::command("onStatus", 0.0, V::Null, vec![sessprep::status_obj("status", *rng.pick(&["NetStream.Play.Start", "NetStream.Publish.Start"]), "d")]), sid),
+                    3 | 4 => (RMsg::Audio(rng.bytes_in(0, 20)), sid),
+                    5 => (RMsg::Video(rng.bytes_in(0, 20)), sid),
+                    _ => (RMsg::Data(vec![amf::s("onMetaData"), amf::obj(vec![("width", amf::num(320.0))])]), sid),
+                };
+                let msg = Msg { type_id: m.type_id(), msid, ts: rng.below(1000) as u32, data: m.body() };
+                out.extend(enc.encode_simple(&msg, sessprep::usual_csid(msg.type_id)));
+            }
+            out
+        }
+        10 => {
+            // workflow traffic a client sends a server on one stream: media, metadata, closeStream,
+            // deleteStream, publish / play again, in any order
+            let mut out = Vec::new();
+            for _ in 0..rng.usize(3, 9) {
+                let sid = *rng.pick(&[stream_hint, stream_hint, 1, 2]);
+                let (m, msid): (RMsg, u32) = match rng.below(9) {
+                    0 | 1 => (RMsg::Video(rng.bytes_in(0, 20)), sid),
+                    2 => (RMsg::Audio(rng.bytes_in(0, 20)), sid),
+                    3 => (sessprep::command("closeStream", 0.0, V::Null, vec![amf::num(sid as f64)]), sid),
+                    4 => (sessprep::command("deleteStream", 0.0, V::Null, vec![amf::num(sid as f64)]), 0),
+                    5 => (sessprep::command("publish", 0.0, V::Null, vec![amf::s("key"), amf::s("live")]), sid),
+                    6 => (sessprep::command("play", 0.0, V::Null, vec![amf::s("key")]), sid),
+                    7 => (sessprep::command("createStream", rng.usize(2, 9) as f64, V::Null, vec![]), 0),
+                    _ => (RMsg::Data(vec![amf::s("@setDataFrame"), amf::s("onMetaData"), amf::obj(vec![("width", amf::num(320.0))])]), sid),
+                };
+                let msg = Msg { type_id: m.type_id(), msid, ts: rng.below(1000) as u32, data: m.body() };
+                out.extend(enc.encode_simple(&msg, sessprep::usual_csid(msg.type_id)));
+            }
+            out
+        }
         7 => {
             // one message cut into more than 65,536 chunks after an in-band SetChunkSize(1|2)
             let cs = *rng.pick(&[1u32, 1, 2]);
@@ -790,7 +830,8 @@ fn f15_case(out: &mut Out) {
     use super::sessprep::{command, connect_cmd, first_request_id, ServerRig};
     use crate::refs::amf::{self, V};
     out.eval(1);
-    let (mut rig, _) = ServerRig::new(rml_rtmp::sessions::ServerSessionConfig::new(), 1000).unwrap_or_else(|e| panic!("harness: {}", e));
+    let (mut rig, init) = ServerRig::new(rml_rtmp::sessions::ServerSessionConfig::new(), 1000).unwrap_or_else(|e| panic!("harness: {}", e));
+    let _ = super::sessprep::decode_packets(&mut rig.dec, &init.packets);
     let app = "a".repeat(60_000);
     let key = "k".repeat(60_000);
     let mut prefix_bytes = 0usize;
@@ -800,13 +841,28 @@ fn f15_case(out: &mut Out) {
         rig.feed(&w).unwrap_or_else(|e| panic!("harness: F15 prefix refused: {}", e))
     };
     let st = step(&mut rig, &connect_cmd(1.0, &app), 0);
+    let _ = super::sessprep::decode_packets(&mut rig.dec, &st.packets);
     let id = first_request_id(&st.events).expect("harness: no connection request");
-    rig.accept(id).unwrap_or_else(|e| panic!("harness: {}", e));
-    step(&mut rig, &command("createStream", 2.0, V::Null, vec![]), 0);
-    let st = step(&mut rig, &command("publish", 0.0, V::Null, vec![amf::s(&key), amf::s("live")]), 1);
+    let acc = rig.accept(id).unwrap_or_else(|e| panic!("harness: {}", e));
+    let _ = super::sessprep::decode_packets(&mut rig.dec, &acc.packets);
+    let st = step(&mut rig, &command("createStream", 2.0, V::Null, vec![]), 0);
+    // the stream id is whatever the session hands out
+    let mut stream_id = 0u32;
+    for (_, _, m) in super::sessprep::decode_packets(&mut rig.dec, &st.packets).unwrap_or_default() {
+        if let RMsg::Command { name, args, .. } = m {
+            if name == "_result" {
+                if let Some(V::Num(b)) = args.get(0) {
+                    stream_id = f64::from_bits(*b) as u32;
+                }
+            }
+        }
+    }
+    assert!(stream_id != 0, "harness: createStream gave no stream id");
+    let st = step(&mut rig, &command("publish", 0.0, V::Null, vec![amf::s(&key), amf::s("live")]), stream_id);
     let id = first_request_id(&st.events).expect("harness: no publish request");
     rig.accept(id).unwrap_or_else(|e| panic!("harness: {}", e));
-    let mut wire = vec![0x04u8, 0, 0, 0, 0, 0, 0, 8, 1, 0, 0, 0];
+    let mut wire = vec![0x04u8, 0, 0, 0, 0, 0, 0, 8];
+    wire.extend_from_slice(&stream_id.to_le_bytes());
     wire.extend(std::iter::repeat(0xC4u8).take(10_000));
     let fed = prefix_bytes + wire.len();
     let ctx = || json!({"target": "ServerSession", "history": "connect(app of 60,000 bytes) accepted, createStream, publish(key of 60,000 bytes) accepted, then 04 000000 000000 08 01000000 followed by 10,000 x C4 in one handle_input call", "bytes_fed_in_total": fed});
